@@ -21,10 +21,13 @@ for p in parts:
         cov[k] += c.get(k, 0)
     cov["samples"] += ["[%s] %s" % (p, s) for s in c.get("samples", [])[:8]]
     cov["exhaustive"] = cov["exhaustive"] and c.get("exhaustive", False)
-    cov["rule"] = c.get("rule", "")
-    cov["engine"] = c.get("engine", "")
-    cov["bounds"] = c.get("bounds", "")
-    cov["configurations"][p] = {k: v for k, v in c.items() if k not in ("samples", "rule", "engine", "bounds")}
+    if "rule" not in cov:
+        # the first part is the property's own binary / tool; later parts keep their rule per configuration
+        cov["rule"] = c.get("rule", "")
+        cov["engine"] = c.get("engine", "")
+        cov["bounds"] = c.get("bounds", "")
+    cov["configurations"][p] = {k: v for k, v in c.items() if k not in ("samples",)}
+    cov["configurations"][p]["binary"] = e.get("binary", pid)
     for a in e.get("assumptions", []):
         if a not in assumptions:
             assumptions.append(a)
@@ -33,6 +36,8 @@ for p in parts:
 for x in extras:
     k, v = x.split("=", 1)
     cov[k] = json.loads(v)
+if len(parts) > 1:
+    cov["rule"] = cov.get("rule", "") + " || merged from %d parts (%s); each part's own rule, bounds and counts are under 'configurations'" % (len(parts), ", ".join(parts))
 if not cov["samples"]:
     cov["samples"] = ["(none)"]
 ev = {"property_id": pid, "tier": tier, "seed": seed, "level": "model_checking", "coverage": cov,
